@@ -6,6 +6,7 @@ import PyGqlModel.StringUtils
 import PyGqlModel.PrintString
 import PyGqlModel.Spec.Lexical
 import PyGqlModel.Spec.BlockStringSpec
+import Driver.ParseOps
 open PyGql
 
 namespace Driver.LexOps
@@ -53,6 +54,18 @@ def handle? (j : J) : Option J :=
                   ("shown", match StringUtils.highlightLocation body pos with
                             | some h => .arr (h.shown.map J.ofText)
                             | none => .null)]
+  | "parse_text" =>
+    -- END TO END on text: the Lean lexer feeds the Lean parser (no real token is involved)
+    let s := j.textD "text"
+    let render (pos : Nat) : List (String × J) :=
+      [("pos", J.ofNat pos), ("str_ok", .bool (StringUtils.highlighted s pos).isSome),
+       ("dict", ofLoc (StringUtils.toDict s pos))]
+    some <| match Lex.lexAll s with
+    | .error e => .obj [("err", .obj ([("stage", .str "lex")] ++ render e.pos))]
+    | .ok toks =>
+      match Driver.ParseOps.parseEntry (j.strD "entry") (Driver.ParseOps.flagsOfJson j) toks with
+      | .ok (ast, _) => .obj [("ok", ast)]
+      | .error e => .obj [("err", .obj ([("stage", .str "parse")] ++ render e.pos))]
   | "spec_lexeme" =>
     let l := j.textD "text"
     let raw := Spec.Lexical.blockStringRaw l
